@@ -144,6 +144,15 @@ func recordInputs(g *groups.Info, kind string, pool *Pool, seed int64, thorough 
 	}
 	rng := core.Rng(seed, "record", g.Name, kind)
 	size := pool.Size
+	if tinyGroup(g) && kind == "point" { // the whole space of short strings: lengths 0..2, and length 3 with a leading zero
+		in = append(in, []byte{})
+		for v := 0; v < 1<<16; v++ {
+			if v < 256 {
+				in = append(in, []byte{byte(v)})
+			}
+			in = append(in, []byte{byte(v >> 8), byte(v)}, []byte{0, byte(v >> 8), byte(v)})
+		}
+	}
 	var valid [][]byte
 	if kind == "point" {
 		valid = validPoints(g, seed+7, 3)
@@ -270,7 +279,7 @@ func Record(cfg Config, res *core.Result) error {
 	}
 	jobs := make([]job, len(names))
 	core.Parallel(len(names), runtime.NumCPU(), func(i int) {
-		g := groups.ByName(names[i])
+		g := groupByName(names[i])
 		pool, subj, err := poolFor(g, cfg.Kind, cfg.Seed, cfg.Per)
 		if err != nil {
 			mu.Lock()
@@ -297,7 +306,7 @@ func Record(cfg Config, res *core.Result) error {
 	core.Parallel(len(units), runtime.NumCPU(), func(i int) {
 		u := units[i]
 		jb := jobs[u.j]
-		g := groups.ByName(jb.g)
+		g := groupByName(jb.g)
 		for k := u.lo; k < u.hi; k++ {
 			o := runObject(g, cfg.Kind, jb.subj, jb.pool, jb.in[k], k, cfg.Seed)
 			tw.add(o)
